@@ -404,6 +404,9 @@ def gen_records(run):
     r = run.tlc('MC_Gen_C05M', base + ['CONSTANTS MaxArgs = 1 Mode = "mut"'], workers=14, timeout=3000, tag='Gen_C05_mut')
     out['mutations'] = r.records
     run.exhaustive['single-token mutations of the seed formulas'] = True
+    r = run.tlc('MC_Gen_C05M', base + [f'CONSTANTS MaxArgs = {1 if run.quick else 2} Mode = "groups"'], workers=14, timeout=3000, tag='Gen_C05_groups')
+    out['groups'] = r.records
+    run.exhaustive['bracket groups two levels deep (joined by + or by a separator, wrapped once more) x 4 contexts (thorough: 7)'] = True
     return out
 
 
